@@ -14,7 +14,9 @@ RULE = ("every history of <= L harness events {clock.advance(a), fire the outsta
         "offset) and every per-call behaviour of the function {return, return unfired Deferred, raise, stop() own loop and "
         "return, return fired Deferred, return failed Deferred, stop() and return unfired Deferred, ...} [all enumerated "
         "completely], combined with at most one slow call per execution: a returning call advances the clock by 0.25 / 1 / 2.5 "
-        "intervals while it runs (it counts as one of the L events); all values dyadic so "
+        "intervals while it runs (it counts as one of the L events), or one restart: after the loop was ended by stop() alone "
+        "(from outside or from inside the function) start() is called again at the current clock time with the same / another "
+        "interval and now=True / False, and the statement is applied to the new run from its own start; all values dyadic so "
         "float arithmetic is exact. non-trivial = distinct (config, call instants, completion instants, counts, ending) in which "
         "a call was delivered late by a clock jump, a Deferred spanned a boundary, a completion fell exactly on a boundary, a "
         "count > 1 was passed, reset() moved the origin, or the loop ended by stop / failure")
@@ -36,17 +38,17 @@ ASSUMPTIONS = [
     "when the start() Deferred fires is not constrained, only that it has fired exactly once when the loop has ended "
     "(stop()/failure happened and no function Deferred is outstanding)",
 ]
-MIN = {"quick": {"evaluations": 1000000, "nontrivial": 110000, "outcomes": 8},
+MIN = {"quick": {"evaluations": 1500000, "nontrivial": 150000, "outcomes": 9},
        "thorough": {"evaluations": 18800000, "nontrivial": 950000, "outcomes": 8}}
 
 _Q = dict(L=4, intervals=[0.5, 1.5], advances=[0.25, 0.5, 1.5, 2.5, 7.0], offsets=[0.0, 0.75],
-          behs=["ret", "defer", "raise", "stopself", "succeed", "fail", "stopdefer"], slow=[0.25, 1.0, 2.5])
+          behs=["ret", "defer", "raise", "stopself", "succeed", "fail", "stopdefer"], slow=[0.25, 1.0, 2.5], restart=True)
 TIERS = {
     "quick": [_Q],
     "thorough": [dict(_Q, L=5),
                  dict(L=4, intervals=[0.5, 1.5, 2.0], advances=[0.25, 0.5, 1.0, 1.5, 2.5, 7.0], offsets=[0.0, 0.75],
                       behs=["ret", "defer", "raise", "stopself", "succeed", "fail", "stopdefer", "stopraise", "resetself"],
-                      slow=[0.25, 1.0, 2.5])],
+                      slow=[0.25, 1.0, 2.5], restart=True)],
 }
 
 
@@ -103,6 +105,7 @@ class H:
         self.adv_prev = None    # clock instant before the advance in progress (None = not advancing)
         self.reset_used = False
         self.count_sum = 0
+        self.restarted = False
         self.phase = None       # [origin, counts since] after a reset() at which no boundary of the old phase was outstanding
         self.flags = set()
         self.lc = None
@@ -111,6 +114,12 @@ class H:
         self.budget = 0
 
     def flag(self, sig, detail):
+        if self.restarted:
+            if self.wc and (sig.startswith("LoopingCall.withCount:count-sum-differs") or sig == "LoopingCall:now-call-not-immediate"):
+                # one mechanism (the skip counter's reference time survives stop()/start()), one signature
+                sig = "LoopingCall.withCount:restart-counts-from-previous-run"
+            else:
+                sig += "-after-restart"
         if not any(s == sig for s, _ in self.bad):
             self.bad.append((sig, detail))
 
@@ -277,6 +286,42 @@ class H:
             self.flag("LoopingCall:now-call-not-immediate", "start(now=True) made %d calls" % len(self.calls))
         self.after_call_returned()
 
+    def try_restart(self, intervals):
+        """(deviation) the loop was ended by stop() alone: start() it again at the current clock time, with the same or
+        another interval, with or without an immediate call.  The statement then applies to the new run from its own start."""
+        if self.failed or self.restarted or self.budget <= 0:
+            return False
+        other = [i for i in intervals if i != self.interval][:1]
+        variants = [(i, now) for i in [self.interval] + other for now in (True, False)]
+        c = self.ch.choose(1 + len(variants), "restart")
+        if not c:
+            return False
+        self.budget -= 1
+        self.restarted = True
+        self.flags.add("restarted")
+        if len(self.sd_fired) != 1:
+            self.flag("LoopingCall:start-deferred-fired-%d-times-after-stop" % len(self.sd_fired), repr(self.sd_fired))
+        n = len(self.calls)
+        self.adv_prev = None
+        self.first_run = (self.calls, self.completions, self.sd_fired)
+        self.calls, self.completions, self.sd_fired = [], [], []
+        self.stopped = False
+        self.interval, self.now = variants[c - 1]
+        self.count_sum, self.reset_used, self.phase, self.expectB = 0, False, None, None
+        self.start0 = self.clock.seconds()
+        self.starts = {self.start0}
+        self.in_start = True
+        sd = self.lc.start(self.interval, now=self.now)
+        self.in_start = False
+        fired = self.sd_fired
+        sd.addCallbacks(lambda r: fired.append("cb"), lambda f: fired.append("eb:" + f.type.__name__))
+        if self.now and len(self.calls) != 1:
+            self.flag("LoopingCall:now-call-not-immediate", "restart with start(now=True) made %d calls" % len(self.calls))
+        self.after_call_returned()
+        if len(self.first_run[2]) != 1:
+            self.flag("LoopingCall:first-start-deferred-fired-again-after-restart", repr(self.first_run[2]))
+        return True
+
     def running(self):
         return not (self.stopped or self.failed)
 
@@ -378,6 +423,8 @@ def make_run(cfg, tier, part=0):
             h.start()
             while h.budget > 0:
                 if not h.running() and h.outstanding is None:
+                    if p.get("restart") and h.try_restart(p["intervals"]):
+                        continue
                     break
                 h.budget -= 1
                 ev = ch.pick(h.menu(advances), "event", free=True)
